@@ -11,7 +11,7 @@ Python int -> Z ; bytes -> list Z ; bool -> bool.
 Two translator classes.  `Tr` is the original expression / return-if subset (DESIGN.md 2.3a) and is FROZEN: the three
 files Gen_types.v, Gen_ptypes.v, Gen_consts.v must stay byte-identical.  `TrI` (imperative subset) extends it for the
 targets added later (Gen_base.v prelude, Gen_pgp.v, Gen_tables.v, Gen_packets.v, Gen_fields.v, Gen_cleartext.v,
-Gen_policy.v, Gen_keyring.v).  Every construct below is translated exactly as stated; anything else raises Unsupported.
+Gen_policy.v, Gen_keyring.v, Gen_subarea.v).  Every construct below is translated exactly as stated; anything else raises Unsupported.
 
 Imperative subset (TrI)
   state           a local name is re-bound by `let` at every assignment (x = e, x += e, x.append(o), del x[..]); an `if`
@@ -53,8 +53,12 @@ Imperative subset (TrI)
                   option- or gres-valued and are hoisted like indexing.
   fields          per target: attributes that are assigned (self.s2k.usage = ..) are tracked like locals, optionally
                   with the declared semantics of a pinned setter (enum constructor -> ValueError).
+  optional bytes  an attribute holding None or octets (declared type 'optbytes') is `option bytes`:  x is None / x is not None
+                  -> match;  None -> None;  attr = <bytes value> -> Some v;  bytes(x) / bytearray(x) -> the octets, hoisted
+                  with TypeError for None (bytearray(None) raises).
   pinned text     statements a target does not translate are compared with their recorded source text (`pinned`, `skip`,
                   `effects` = pinned statement standing for a declared state update); each must occur exactly once.
+                  An effect may update several state variables at once: all new values are computed in the old state.
 """
 import ast, os, sys, re
 
